@@ -108,6 +108,9 @@ def _compare(src, log_v, v_res):
         if isinstance(env, NameError):
             # a name the program uses was never imported or bound: the import the VM performs is missing
             return "EVENTS", "decompiled program uses an unbound name (%s) | %r" % (env, src)
+        if isinstance(env, ImportError):
+            # the program's import statement does not name the module the VM imports (relative import)
+            return "EVENTS", "decompiled program's import is not the VM's (%s) | %r" % (env, src)
         return "EXEC", "%s: %s | %r" % (type(env).__name__, env, src)
     vm_events = [e for e in log_v if not (e[0] == "import" and e[1] == "builtins")]
     missing = missing_events([strip_ids(e) for e in vm_events], [strip_ids(e) for e in log_d])
